@@ -48,6 +48,9 @@ pub const PEER_ISN: u32 = 0x1000_0000;
 pub const T0_MS: i64 = 1000;
 pub const PROBE_IDENT: u16 = 0xc03c;
 pub const PROBE_DATA: &[u8] = b"c03-probe";
+/// 40 octets: ICMP message of 48 octets = 24 + 24, fragment boundary on a multiple of 8
+pub const FRAG_PROBE_DATA: &[u8] = b"c03-fragmented-probe-0123456789abcdefghi";
+pub const FRAG_PROBE_ADVANCE_MS: i64 = 61_000;
 
 /// More device calls than this inside ONE `Interface::poll` is a hang: a healthy poll calls
 /// receive() once per queued frame (we queue one) + once more, and transmit() at most a few
@@ -174,6 +177,8 @@ impl Outcome {
 pub fn panic_tag(msg: &str) -> &'static str {
     if msg.contains("out of range") || msg.contains("out of bounds") || msg.contains("slice index") || msg.contains("mid > len") {
         "slice-index"
+    } else if msg.contains("sequence number") {
+        "seq-arith"
     } else if msg.contains("attempt to subtract with overflow") {
         "sub-overflow"
     } else if msg.contains("attempt to add with overflow") {
@@ -211,6 +216,9 @@ pub struct Learned {
     pub dns_port: u16,
     pub dns_txid: u16,
     pub dhcp_xid: u32,
+    /// ISS the listening socket answers the first SYN with when that SYN is the first frame
+    /// after the base state (learned by the caller on a scout world, 0 inside World)
+    pub listen_iss: u32,
 }
 
 pub struct Handles {
@@ -817,7 +825,7 @@ impl World {
     /// address the interface owns now. v6/v4: Some(answered) or None when not applicable.
     pub fn probe(&mut self) -> ProbeResult {
         let medium = self.cfg.medium;
-        let mut res = ProbeResult { v6: None, v4: None, outcome: Outcome::Ok, log: vec![] };
+        let mut res = ProbeResult { v6: None, v4: None, frag: None, outcome: Outcome::Ok, log: vec![] };
         self.take_tx();
         self.probe_seq = self.probe_seq.wrapping_add(1);
         let seq = self.probe_seq;
@@ -878,7 +886,79 @@ impl World {
                 res.v4 = Some(out.iter().any(|f| is_echo_reply(medium, false, f, PROBE_IDENT, seq, PROBE_DATA)));
             }
         }
+        self.probe_fragmented(&mut res, seq);
         res
+    }
+
+    /// Second trailing probe: a well-formed echo request sent in TWO FRAGMENTS (IPv4 fragments
+    /// on Ethernet / IP, 6LoWPAN FRAG1 + FRAGN on 802.15.4) must be reassembled and answered.
+    /// Lenient reading: a partial datagram left behind by the sequence legitimately occupies a
+    /// reassembly slot until it times out (60 s), so the clock is first advanced by 61 s and the
+    /// interface polled; after that every slot must be usable again. The prober's link-layer
+    /// address is taught again (neighbor entries live 60 s) and the addresses are re-read (a
+    /// DHCP lease may have ended meanwhile; without a usable IPv4 subnet the IPv4 variant is
+    /// not applicable).
+    fn probe_fragmented(&mut self, res: &mut ProbeResult, seq: u16) {
+        let medium = self.cfg.medium;
+        macro_rules! step {
+            ($what:expr, $frame:expr) => {{
+                let o = self.inject($frame);
+                let out = self.take_tx();
+                res.log.push(format!("{} -> {:?}", $what, out.iter().map(|f| classify(medium, f)).collect::<Vec<_>>()));
+                if !o.is_ok() {
+                    res.outcome = o;
+                    return;
+                }
+                out
+            }};
+        }
+        let o = self.advance(FRAG_PROBE_ADVANCE_MS);
+        let out = self.take_tx();
+        res.log.push(format!("+{} ms -> {:?}", FRAG_PROBE_ADVANCE_MS, out.iter().map(|f| classify(medium, f)).collect::<Vec<_>>()));
+        if !o.is_ok() {
+            res.outcome = o;
+            return;
+        }
+        if medium == Medium::Ieee802154 {
+            let Some((target, plen)) = self.first_v6() else { return };
+            if plen > 64 {
+                return;
+            }
+            let mut prober = target;
+            for b in prober[8..].iter_mut() {
+                *b = 0;
+            }
+            prober[15] = if target[15] == 0x99 && target[8..15] == [0; 7] { 0x98 } else { 0x99 };
+            let ns = self.ns_frame(&prober, &PROBER_MAC, PROBER_EXT, &target);
+            step!("frag-probe NS", &ns);
+            let m = icmp6(&prober, &target, 128, 0, &echo_body(PROBE_IDENT, seq, FRAG_PROBE_DATA));
+            let size = (40 + m.len()) as u16;
+            let mac = World::mac_std(PROBER_EXT, 2);
+            let mut a = frag1(size, 0xc03f);
+            a.extend_from_slice(&iphc(&Iphc { tf: 3, hlim: 0, sam: Am::Full, dam: Am::Full }, &prober, &target, Some(58), 64));
+            a.extend_from_slice(&m[..24]);
+            let mut b = fragn(size, 0xc03f, 8);
+            b.extend_from_slice(&m[24..]);
+            step!("FRAG1", &mac154(&mac, &a));
+            let out = step!("FRAGN", &mac154(&mac, &b));
+            res.frag = Some(out.iter().any(|f| is_echo_reply(medium, true, f, PROBE_IDENT, seq, FRAG_PROBE_DATA)));
+        } else {
+            let Some((target, prober)) = self.v4_probe_addrs() else { return };
+            let wrap = |ipp: Vec<u8>| match medium {
+                Medium::Ethernet => eth(&IFACE_MAC, &PROBER_MAC, 0x0800, &ipp),
+                _ => ipp,
+            };
+            if medium == Medium::Ethernet {
+                let f = eth(&[0xff; 6], &PROBER_MAC, 0x0806, &arp(1, &PROBER_MAC, &prober, &[0; 6], &target));
+                step!("frag-probe ARP", &f);
+            }
+            let m = icmp4(8, 0, echo_body(PROBE_IDENT, seq, &[])[..4].try_into().unwrap(), FRAG_PROBE_DATA);
+            let f1 = wrap(ipv4(&prober, &target, 1, &m[..24], V4Opt { id: 0xc03f, flags_frag: 0x2000, ..V4 }));
+            let f2 = wrap(ipv4(&prober, &target, 1, &m[24..], V4Opt { id: 0xc03f, flags_frag: 3, ..V4 }));
+            step!("v4 fragment 1/2", &f1);
+            let out = step!("v4 fragment 2/2", &f2);
+            res.frag = Some(out.iter().any(|f| is_echo_reply(medium, false, f, PROBE_IDENT, seq, FRAG_PROBE_DATA)));
+        }
     }
 }
 
@@ -886,6 +966,8 @@ impl World {
 pub struct ProbeResult {
     pub v6: Option<bool>,
     pub v4: Option<bool>,
+    /// fragmented echo request (IPv4 fragments resp. 6LoWPAN FRAG1/FRAGN) answered?
+    pub frag: Option<bool>,
     pub outcome: Outcome,
     pub log: Vec<String>,
 }
